@@ -248,7 +248,7 @@ _p("C03", modules=["robustness", "demux", "ports", "quic_output", "main_run", "q
    bounded=[{"function": "QuicSession.set_tls_decryptors (key-state invariant)", "bound": "each of the five QUIC-relevant labels at most once per connection (all 32 subsets), one foreign label", "counted_as": "bounded in the multiplicity of labels, unbounded in all values"}],
    not_under_contract=["extract_quic_packet in the QUICK tier (thorough only)"])
 
-_p("C01", modules=["record_protection", "framing", "framing_unbounded", "framing_history", "keys", "cipher_suites", "tcp_output", "robustness", "metadata"], level="other",
+_p("C01", modules=["record_protection", "framing", "framing_unbounded", "framing_history", "keys", "cipher_suites", "tcp_output", "robustness", "metadata", "compose_tls"], level="other",
    technique="contract-based deductive verification of every link of the TLS pipeline (per-function contracts; primitives uninterpreted); composition on paper",
    level_text="The pipeline is decomposed into links and each link's obligation is discharged on the real code: framing (records released by one extract call = frame(buffered stream), UNBOUNDED loop contract; capture-order history BOUNDED); ServerHello parsing "
               "(random, suite, compression, extension map incl. zero-length last extensions, version rule; bounded to 2 extensions); suite resolution (C14, exhaustive); key "
@@ -257,14 +257,18 @@ _p("C01", modules=["record_protection", "framing", "framing_unbounded", "framing
               "library primitive receives exactly the RFC's key (by direction), nonce, additional data and ciphertext, the result is the content with explicit IV, padding "
               "and MAC removed, only the own direction's state advances and an authentication failure leaves the state unchanged; TLS 1.3 inner plaintext (content || type || "
               "zeros -> content exported exactly for type 23); output (C06/C07).",
-   level_note="level 'other': the END-TO-END statement (exported bytes = application data sent) needs the induction over the record sequence of a connection - each link's "
-              "postcondition re-establishing the next link's precondition across session.py, decryptor.py and output_builder.py - which is a paper argument (DESIGN 4 C01); "
+   level_note="level 'other': the induction over the record sequence of a direction - the receiver's cipher state follows the sender's and every application record is exported exactly, "
+              "in order, once - IS discharged for the AEAD classes (compose.application_phase: loop contract over any number of records with handle_tls_record, the handlers, "
+              "Decryptor.decrypt and decrypt_* executed from their real bodies, AEAD modelled as 'opens iff key, nonce, ciphertext and additional data are the sealed ones', frame "
+              "obligation on everything else); for the CBC and RC4 classes the same induction rests on the per-record contracts and stays a paper argument; the remaining composition "
+              "(handshake phase -> installed keys -> application phase -> output builder) links discharged contracts by their stated pre/postconditions (DESIGN 4 C01); "
               "AES/HMAC/etc. are uninterpreted; ClientHello parsing is a single slice (client random) and not separately contracted; compression (zlib) is not claimed",
    design_ref="DESIGN.md 4 C01",
    explanation="Every listed link is proved per function; what is not machine-checked is their composition into the whole-connection invariant and the cryptography itself.",
    assumptions=UNBOUNDED_FRAMING_ASSUMPTIONS + ["dec(enc(x)) = x for CBC/stream contexts; AEAD decrypt returns the protected plaintext or raises InvalidTag"],
    trusted_base=["cryptography (AEAD, Cipher, modes)"], bounded=BOUNDED_FRAMING,
-   composition_assumptions=["induction over the record sequence: the Decryptor's per-direction state equals the sender's after the same records"],
+   composition_assumptions=["for CBC / RC4 suites: induction over the record sequence (per-record contracts discharged; AEAD suites: discharged by compose.application_phase)",
+                            "the handshake phase ends in the state the application phase starts from (keys.installed post-state = compose.application_phase pre-state)"],
    not_under_contract=["Decryptor.inflate (compression)", "Session.handle_tls_client_hello (one slice)"])
 
 _p("C02", modules=["quic_session_c", "quic_keystate", "quic_dissector_c", "quic_tls_c", "quic_output", "demux", "quic_pkn", "keys", "quic_varint", "quic_frame", "robustness"], level="other",
@@ -285,7 +289,7 @@ _p("C02", modules=["quic_session_c", "quic_keystate", "quic_dissector_c", "quic_
    bounded=[{"function": "QuicTlsSession.update_session", "bound": "a CRYPTO stream prefix cut into <= 3 fragments (any cut points, any order)", "counted_as": "bounded"}],
    not_under_contract=["QuicTlsSession.get_extensions / get_quic_transport_parameters (ALPN, grease bit: not needed for the exported data)"])
 
-_p("C13", modules=["metadata", "quic_output", "tcp_output", "robustness", "record_protection"], level="other",
+_p("C13", modules=["metadata", "quic_output", "tcp_output", "robustness", "record_protection", "compose_tls"], level="other",
    technique="contract-based deductive verification: two-run (product) contract on the record handler + builder contracts parametrised by the flag",
    level_text="Proved: for every non-hello record, session state and decryptor behaviour, handle_tls_record run with exp_meta False and True ends with identical flags, identical "
               "decryptor call sequence and identical application-data entries; with -a the only additions are entries carrying that very record (ChangeCipherSpec and alert "
@@ -298,7 +302,7 @@ _p("C13", modules=["metadata", "quic_output", "tcp_output", "robustness", "recor
    design_ref="DESIGN.md 4 C13", explanation="Per-record and per-builder obligations discharged for both values of the flag; the whole-run subsequence statement is their composition (paper).",
    assumptions=[], trusted_base=[], not_under_contract=["handle_tls_client_hello / handle_tls_server_hello under the product harness"])
 
-_p("C08", modules=["prefix", "framing", "framing_unbounded", "framing_history", "tcp_output", "quic_output", "main_run", "demux"], level="other",
+_p("C08", modules=["prefix", "framing", "framing_unbounded", "framing_history", "tcp_output", "quic_output", "main_run", "demux", "compose_tls"], level="other",
    technique="syntactic frame obligations (append-only accumulators, no look-ahead) + bounded product contract + builder transition relations",
    level_text="The export is a left fold over the capture. Discharged: every accumulating list (packet_buffer, application_traffic, output_buffer, the builders' out lists, "
               "main's session/key lists after the reset) is append-only; each fold loop reads its input only through its loop variable (no look-ahead, no second pass); "
